@@ -159,12 +159,17 @@ def _default():
 def wl_history(ctx, rng, case):
     est = rng.choice([1, 1, 2, 2, 3, 4, 5, 6])
     Q = rng.choice([1, 1, 2, 2, 3, 4, 5])
+    nsteps = rng.randint(8, 80)
+    if rng.random() < 0.2:
+        # a DEEP queue (up to 40 filters) of tiny filters, long enough to fill it and to re-add keys that only the oldest filters hold
+        est, Q, nsteps = rng.choice([1, 1, 2]), rng.choice([17, 18, 20, 24, 33, 40]), rng.randint(120, 220)
+        ctx.count("deep_queue_histories")
     for _ in range(50):
         rate = rng.choice([0.5, 0.3, 0.2, 0.1, 0.05, 0.01, 0.001, 1e-4])
         mk = refimpl.bloom_sizing_simple(est, rate)
         if mk and mk[1] >= 1:
             break
-    keys = gen.universe(rng, rng.randint(4, 40))
+    keys = gen.universe(rng, rng.randint(4, 40) if Q < 12 else rng.randint(Q * est + 5, Q * est + 25))
     hname, hf = gen.pick_hash(rng, keys, kind=rng.choice(["library_default", "default_fnv_1a", "default_md5", "default_sha256", "decorated_int_sha512",
                                                           "decorated_bytes_blake2b", "hand_pairs_collide", "hand_mod3"]))
     if rng.random() < 0.12:
@@ -177,7 +182,7 @@ def wl_history(ctx, rng, case):
     ctx.observe("queue_sizes", Q)
     sc = bl.Scratch(ctx, case)
     try:
-        rot, rel = run_history(ctx, rng, case, est, Q, rate, hname, hf, keys, rng.randint(8, 80), p_pushpop, sc)
+        rot, rel = run_history(ctx, rng, case, est, Q, rate, hname, hf, keys, nsteps, p_pushpop, sc)
         case.nontrivial = rot >= 1 or rel >= 1
         if rot:
             ctx.count("cases_with_rotation")
